@@ -11,7 +11,8 @@ RULE = ('seeded generation of state trees (2-18 states, depth <= 8 in the genera
         'event histories of 5-40 events; every host (plain, instrumented, queued, active object, factory) and '
         'build (hand-written closures with/without spy_on, template, factory, to_code) as swarm dimensions; the '
         'real processor runs inside the simulator and every step is compared with the UML reference model '
-        '(ordered ENTRY/EXIT/INIT invocations and actions recorded inside the handler bodies, resting state). '
+        '(ordered ENTRY/EXIT/INIT invocations and actions recorded inside the handler bodies, resting state); some actions send an '
+        'event to a second, independent chart in the middle of the step (that chart makes a transition of its own, which is checked too). '
         'Non-trivial = a transition step; distinct = distinct (topology class a-h, number of exits, number of '
         'entries, depth of the initial-transition chain) tuples.')
 ASSUMPTIONS = ['no schedule dimension: the dispatch order is fixed by the history (one step at a time)']
@@ -22,7 +23,13 @@ PLAN = {
   'thorough': {'strata': {'general': 100000, 'deep-init': 70000, 'very-deep': 70000}, 'wall_s': 900, 'chunk': 250, 'min_conclusive': 10000},
 }
 
-ORACLES = [lambda run, res: co.check_transitions(run, res, want=('C01',))]
+def companion(run, res):
+  if run.companion_problems:
+    before, after, got, want = run.companion_problems[0]
+    res.violate('other-chart-transition', {}, 'a second chart poked from an action of the chart under test went from %s to %s running %s, expected %s' % (before, after, got, want))
+
+
+ORACLES = [lambda run, res: co.check_transitions(run, res, want=('C01',)), companion]
 
 
 def generate(seed, stratum, tier):
